@@ -23,6 +23,7 @@ class Extract:
         self.events = events
         self.fi = fi
         self.interp = interp
+        self.paths = list(getattr(interp, "paths", []))  # [(guards, returned value)] of the top-level function
 
     def stores(self, attr=None):
         """Final values of attribute stores {(basekey, attr): value}."""
